@@ -361,6 +361,10 @@ int fp_prime_get_2ad(void) {
 }
 
 void fp_prime_set_dense(const bn_t p) {
+#if FP_RDC == QUICK || !defined(STRIP)
+	/* Forget the sparse form of a previously installed prime. */
+	core_get()->sps_len = 0;
+#endif /* FP_RDC == QUICK */
 	fp_prime_set(p);
 #if FP_RDC == QUICK
 	RLC_THROW(ERR_NO_CONFIG);
